@@ -348,5 +348,12 @@ def edgeStep (st : EdgeState) (ix : Ix) : Option EdgeState :=
 def edgePathToSsa (edgePath : List Ix) (inputs : List (List Ix)) : Option Path :=
   (edgePath.foldl (fun o ix => o.bind (fun st => edgeStep st ix)) (some (edgeInit inputs))).map (·.path)
 
+/-- `ContractionTree.from_path(inputs, output, size_dict, edge_path=…)` (core.py:541-550): the edge
+    path is converted by `edge_path_to_ssa(edge_path, inputs)` and handed, as it is, to the ssa
+    branch.  Neither the output nor the sizes enter. -/
+def fromEdgePath (edgePath : List Ix) (inputs : List (List Ix)) :
+    Option (List (List Nat) × List (List Nat)) :=
+  (edgePathToSsa edgePath inputs).bind (fromSsaPath inputs.length)
+
 end Paths
 end Cotengra
